@@ -103,6 +103,7 @@ class Check(BaseCheck):
             mu = np.asarray(mu_i[1])
             from .C05 import boundary_vertices
             lm = np.array(boundary_vertices(t))
+            lm = [lm, lm[::-1].copy(), np.roll(lm, len(lm) // 3), lm[np.argsort(np.sin(7.0 * lm + k))]][k % 4]     # landmark order is the caller's
             target = np.column_stack([wz.real[lm], wz.imag[lm]])
             with core.quiet():
                 with capture.capture() as calls:
@@ -229,14 +230,16 @@ class Check(BaseCheck):
             from .C05 import boundary_vertices
             lm = np.array(boundary_vertices(t))
             z = v[:, 0] + 1j * v[:, 1]; wz = a * z + b * np.conj(z)
-            mp = core.call(conformal.linear_beltrami_solver, pm, np.full(len(t), b / a), lm, np.column_stack([wz.real[lm], wz.imag[lm]]))
-            if mp[0] != "ok":
-                return core.Violation("lbs", "linear_beltrami_solver raised %s" % (mp[1:],), case)
-            got = mp[1][:, 0] + 1j * mp[1][:, 1]
-            if np.max(np.abs(got[lm] - wz[lm])) > 1e-12 * max(1, np.abs(wz).max()):
-                return core.Violation("lbs", "landmarks not reproduced exactly", case)
-            if np.max(np.abs(got - wz)) > 1e-7 * max(1, np.abs(wz).max()):
-                return core.Violation("lbs", "piecewise-affine map with the given coefficient not reproduced (max dev %.3g)" % np.max(np.abs(got - wz)), case)
+            for oname, lm in (("ascending", lm), ("descending", lm[::-1].copy()), ("boundary order rotated", np.roll(lm, len(lm) // 3)),
+                              ("shuffled", lm[np.argsort(np.sin(7.0 * lm))])):
+                mp = core.call(conformal.linear_beltrami_solver, pm, np.full(len(t), b / a), lm, np.column_stack([wz.real[lm], wz.imag[lm]]))
+                if mp[0] != "ok":
+                    return core.Violation("lbs", "linear_beltrami_solver raised %s (landmarks %s)" % (mp[1:], oname), case)
+                got = mp[1][:, 0] + 1j * mp[1][:, 1]
+                if np.max(np.abs(got[lm] - wz[lm])) > 1e-12 * max(1, np.abs(wz).max()):
+                    return core.Violation("lbs", "landmarks (%s) not reproduced exactly" % oname, case)
+                if np.max(np.abs(got - wz)) > 1e-7 * max(1, np.abs(wz).max()):
+                    return core.Violation("lbs", "piecewise-affine map with the given coefficient not reproduced (landmarks %s, max dev %.3g)" % (oname, np.max(np.abs(got - wz))), case)
             return None
         if kind == "guard":
             for (v, t) in (gen.torus(4, 4), gen.grid(2, 2), gen.union(gen.icosphere(0), gen.octahedron())):
